@@ -190,6 +190,8 @@ def cases(tier):
         seen.add(p)
         numeric = "#" in p
         if q:
+            if p.count("#") >= 2:
+                continue  # two or more numeric keywords: 5-13 minutes each, thorough tier only
             c = mk(p, 13 if numeric else 12, 900, 2)
         else:
             c = mk(p, 16 if numeric else 18, 3000, 9)
